@@ -26,16 +26,21 @@ import common as C
 import pyexpr as P
 
 MANIFEST = {
-    "text": "FULL for input immutability (all handlers, all heaps, all call sequences: heap model with object identities, "
-    "table of copy kinds / mutation paths re-extracted from tiled_writer.py, `tableSafe` by decide), for event values kept, "
-    "for seq_nums = indices + 1 and [seq-1, seq) ranges, for exactly-one stream datum per reference (multiset equality, "
-    "any datum/event order incl. late datums flushed at stop) and for the backup clause below maxlen (all failure "
-    "patterns, induction); PARTIAL for frame-based ranges in event order (needs: no reference is deferred before a later "
-    "one is resolved immediately -- counterexample on the real code reported); schema validity is test-level "
-    "(event_model validators on every emitted document).",
-    "note": "Trusted: Lean kernel; harness/c35_alias.py (alias analysis refuses unknown shapes instead of guessing); "
-    "subscribers and user `patches` do not mutate nested containers of the documents they are handed; "
-    "event_model.unpack_*_page build fresh top-level documents; jsonschema validation does not mutate.",
+    "text": "PARTIAL. Proved (Props/C35.lean): (1) input immutability, FULL -- for every table passing the decidable safety check, "
+    "every caller heap, every sequence of handler calls and every schedule of the handlers' mutating statements no object of the "
+    "caller's heap changes; the table (copy function of each handler, every mutating statement with its path, cache stores) is "
+    "re-extracted from tiled_writer.py on every run and `generatedTable.safe` is discharged by `decide` (a handler that mutates nested "
+    "state and goes back to copy.copy breaks the build); (2) every internal event value kept, every event re-emitted exactly once in "
+    "order; (3) exactly one stream datum per referenced datum (multiset equality, any datum/event order incl. late datums flushed at "
+    "stop), seq_nums = indices + 1, [seq_num-1, seq_num) without a frame, frame-based ranges tile [0,N) in conversion order; "
+    "(4) _ConditionalBackup hands every document exactly once in order for every failure pattern while the buffer is below maxlen "
+    "(overflow behaviour proved separately).  PARTIAL for frame-based ranges: conversion order = event order only when no reference "
+    "is deferred before a later one is resolved, and a range is non-empty only when the frame number differs from the previous one -- "
+    "two OPEN known findings with counterexample theorems.  Schema validity is test-level (event_model validators on every emitted document).",
+    "note": "Trusted: Lean kernel; harness/c35_alias.py (alias analysis; refuses unknown shapes instead of guessing); "
+    "subscribers and user `patches` do not mutate nested containers of the documents they are handed (start/stop/stream_datum are "
+    "shallow copies); event_model.unpack_*_page build fresh top-level documents; jsonschema validation does not mutate; the "
+    "hand-written flow model is tied to the code by the correspondence run only.",
     "technique": "Lean 4 proof over a heap model + source-extracted mutation table (translator) + flow model tied by correspondence runs",
 }
 LEAN_MODULES = ["BlueskyVerif.Props.C35"]
